@@ -235,12 +235,13 @@ class Check(FormulaCheck):
             # with a number of places: whatever text comes back still denotes n (padding adds zeros only); an error otherwise
             pl = rnd.randint(0, 12)
             t = self.ev('DEC2HEX(v_n,v_p)', v_n=n, v_p=pl)
+            plain = self.ev('DEC2HEX(v_n)', v_n=n)
             if not self.is_err(t):
                 back = self.ev('HEX2DEC(v_t)', v_t=t)
-                plain = self.ev('DEC2HEX(v_n)', v_n=n)
                 self.expect('C17/HEX2DEC(DEC2HEX(n,places))', back == n and isinstance(t, str) and t.lstrip('0') == str(plain).lstrip('0'), n=n, places=pl, hex=t, got=back)
             else:
-                rec.case()
+                # asking for at least as many places as the number has digits only pads: the number is still convertible
+                self.expect('C17/DEC2HEX:enough-places-refused', not (isinstance(plain, str) and not self.is_err(plain) and pl >= len(plain)), n=n, places=pl, plain=plain, got=t)
             r = rnd.randint(2, 36)
             m = rnd.choice([0, 1, r - 1, r, r * r - 1, rnd.randint(0, HI40 - 1), rnd.randint(0, 5000), HI40 - 1])
             t = self.ev('BASE(v_n,v_r)', v_n=m, v_r=r)
